@@ -241,12 +241,30 @@ func TestC18Ingress(t *testing.T) {
 		}
 		content := rapid.SampledFrom([]string{"rand", "zero", "text"}).Draw(t, "content")
 		path := rapid.SampledFrom(paths).Draw(t, "path")
-		s, err := stack.New(stack.Opts{Storage: storage, MaxBlob: L})
+		b := gen.MakeBlob(rapid.Uint64Range(0, 1000).Draw(t, "seed"), int(n), content, rel)
+		// An oversize blob the cache already holds - here: stored before the
+		// limit was lowered (the server is restarted on the same directory with
+		// max_blob_size L). Uploading it again is still an upload of an oversize item.
+		known := false
+		dir := ""
+		if n > L && path != "splice" && path != "splice-nodigest" && path != "fetch" && path != "ac-inline" && rapid.IntRange(0, 3).Draw(t, "alreadyKnown") == 0 {
+			dir = stack.FreshDir()
+			defer stack.RecycleDir(dir)
+			s0, err := stack.New(stack.Opts{Storage: storage, Dir: dir, NoServers: true})
+			if err != nil {
+				t.Fatal(err)
+			}
+			if err := s0.Cache.Put(context.Background(), cache.CAS, b.Hash, b.Size, bytes.NewReader(b.Data)); err != nil {
+				t.Fatal(err)
+			}
+			known = true
+			E.Label("oversize:already-known")
+		}
+		s, err := stack.New(stack.Opts{Storage: storage, MaxBlob: L, Dir: dir})
 		if err != nil {
 			t.Fatal(err)
 		}
 		defer s.Close()
-		b := gen.MakeBlob(rapid.Uint64Range(0, 1000).Draw(t, "seed"), int(n), content, rel)
 		res := upload(t, s, path, b, L)
 		if res.info == "skip" {
 			return
@@ -255,7 +273,7 @@ func TestC18Ingress(t *testing.T) {
 		nontrivial := rel == "L-1" || rel == "L" || rel == "L+1" || transportSmall
 		E.Case(fmt.Sprintf("%s|%s|%s|%s|%d", path, rel, storage, content, lclass(L)), nontrivial, "path="+path, "rel="+rel, "storage="+storage, fmt.Sprintf("Lclass=%d", lclass(L)), fmt.Sprintf("transportSmall=%v", transportSmall))
 		E.Sample(path+"/"+rel, map[string]any{"path": path, "max_blob_size": L, "size": n, "content": content, "storage": storage, "server": res.info})
-		ctxs := fmt.Sprintf("path=%s L=%d size=%d (%s) content=%s storage=%s -> %s", path, L, n, rel, content, storage, res.info)
+		ctxs := fmt.Sprintf("path=%s L=%d size=%d (%s) content=%s storage=%s already-known=%v -> %s", path, L, n, rel, content, storage, known, res.info)
 		present, perr := cl.Present(s, b.Hash, b.Size)
 		if perr != nil {
 			t.Fatalf("FindMissingBlobs: %v", perr)
@@ -281,11 +299,11 @@ func TestC18Ingress(t *testing.T) {
 			if !res.clientErr {
 				t.Fatalf("item larger than max_blob_size refused, but not with a client error: %s", ctxs)
 			}
-			if present {
+			if present && !known {
 				t.Fatalf("refused oversize item is present: %s", ctxs)
 			}
 			for _, e := range disk.VerifIndexSnapshot(s.Cache) {
-				if e.Size > L {
+				if e.Size > L && !known {
 					t.Fatalf("an entry of logical size %d > max_blob_size was stored (%s): %s", e.Size, e.Key, ctxs)
 				}
 			}
